@@ -225,3 +225,12 @@ def run(ctx):
                    '%s of the path resolved from `%s` %s' % (mu.name, op_cl.lname(x), 'is reported in the changed-files list on every successful path' if ok else
                                                         'is NOT reported on some successful path: the result of a successful patch no longer names every file it touched'), line=mu.line)
     ctx.floor('C12.6', 'mutations of resolved patch paths', n6, 4)
+
+    # ---------------------------------------------------------------- C12.7
+    ctx.rule('C12.7', 'file content is decoded strictly: nothing reachable from Workspace::apply_patch inside rip_workspace decodes bytes lossily (from_utf8_lossy / from_utf16_lossy / from_utf8_unchecked) — a text update of a file that is not valid UTF-8 must be refused, not "succeed" while rewriting the invalid bytes of untouched lines as U+FFFD.')
+    par7 = [P.fns[p_] for p_ in sorted(P.reach_fns([APPLY])) if p_ in P.fns and P.fns[p_].crate == 'rip_workspace']
+    strict = [s_ for g in par7 for s_ in g.calls(r'^alloc::string::String::from_utf8$|^core::str::converts::from_utf8$')]
+    lossy = [(g, s_) for g in par7 for s_ in g.calls(r'::from_utf8_lossy$|::from_utf16_lossy$|::from_utf8_unchecked$|::from_utf8_lossy_owned$')]
+    ctx.floor('C12.7', 'functions of rip_workspace reachable from apply_patch', len(par7), 4)
+    ctx.ob('C12.7', f, 'no-lossy-decode', not lossy, '%d function(s) of rip_workspace reachable from apply_patch, %d strict decode(s); %s' % (len(par7), len(strict), 'no lossy decode' if not lossy else
+           '%s decodes with %s: invalid bytes of lines the patch does not touch are rewritten' % (lossy[0][0].path, lossy[0][1].name)), line=lossy[0][1].line if lossy else f.line)
